@@ -97,6 +97,9 @@ func productCases(tier string) []scen.Case {
 		n++
 		sub := func(s string) string { return strings.ReplaceAll(s, "§", id) }
 		c := scen.Controller{Name: "C" + id + "Ctl", Pkg: id, Tag: scen.S(sub(tag))}
+		if tag == "<none>" {
+			c.Tag = nil
+		}
 		pfx := ""
 		if prefix != "<none>" {
 			c.Prefix = scen.S(sub(prefix))
@@ -127,6 +130,15 @@ func productCases(tier string) []scen.Case {
 					}
 				}
 			}
+		}
+	}
+	// controllers without any doc comment (no @Route, no @Tag): accepted (a missing tag is only a warning)
+	for _, r := range routesB {
+		for _, v := range []string{"GET", "POST"} {
+			if r == "§" {
+				continue
+			}
+			add("<none>", r, v, false, false, "<none>", "B")
 		}
 	}
 	for _, p := range prefixesB {
@@ -197,6 +209,14 @@ func mutators() []mutator {
 			u.Controllers = append(u.Controllers, c)
 		}},
 		{"C.no-methods", func(u *scen.Unit, id string) { u.Controllers[2].Methods = nil }},
+		{"B.no-doc-comment-after-A-in-the-same-file", func(u *scen.Unit, id string) {
+			u.Controllers[0].File, u.Controllers[1].File = "shared.go", "shared.go"
+			u.Controllers[1].Prefix, u.Controllers[1].Tag = nil, nil
+			for i := range u.Controllers[1].Methods {
+				r := "/" + id + "/bare" + *u.Controllers[1].Methods[i].Route
+				u.Controllers[1].Methods[i].Route = &r
+			}
+		}},
 		{"A.unannotated-helper-method", func(u *scen.Unit, id string) {
 			u.Controllers[0].Methods = append(u.Controllers[0].Methods, scen.Method{Name: "helper" + id, Err: "-"})
 		}},
